@@ -35,7 +35,7 @@ def emit(fn, sel, title, extra_imports=""):
         body = " /\\\n  ".join(parts)
         def conj(ps):
             return "(%s)" % ps[0] if len(ps) == 1 else "(conj (%s) %s)" % (ps[0], conj(ps[1:])) if len(ps) > 2 else "(conj (%s) (%s))" % (ps[0], ps[1])
-        out.append("Theorem %s : %s%s.\nProof. %sexact %s. Qed.\nPrint Assumptions %s.\n" % (thm + fn[1], q, body, "intros; " if ls else "", conj(proofs), thm + fn[1]))
+        out.append("Theorem %s : %s%s.\nProof. %sexact %s. Qed.\nPrint Assumptions %s.\n" % (thm + fn[1], q, body, ("intros %s; " % ls) if ls else "", conj(proofs), thm + fn[1]))
         n += 1
     open(fn[0], "w").write("\n".join(out))
     print(fn[0], n, "theorems")
